@@ -15,15 +15,19 @@ import (
 
 // loopModel: a `for` statement replaced by  <assign> = <fn>(<args>).
 type loopModel struct {
-	fn     string   // section variable
-	args   []string // Go variables passed (by value)
-	assign string   // Go *big.Int variable that holds the result afterwards
-	sha    string   // fingerprint of the printed loop statement
+	fn      string   // section variable
+	args    []string // Go variables passed (by value)
+	assign  string   // Go variable (*big.Int or pointer to struct) whose pointee holds the result afterwards
+	clobber []string // Go variables the loop leaves in a state the model does not describe
+	sha     string   // fingerprint of the printed loop statement
 }
 
 var loopModels = map[string]loopModel{
 	"mimc7.Hash": {fn: "absorb", args: []string{"arr", "r"}, assign: "r",
 		sha: "65a752f7ac306556342594bc4850b1d0"},
+	// for i := 0; i < s.BitLen(); i++ { if s.Bit(i) == 1 { resProj.Add(resProj, exp) }; exp = exp.Add(exp, exp) }
+	"babyjub.Point.Mul": {fn: "mulLoop", args: []string{"s", "resProj", "exp"}, assign: "resProj",
+		clobber: []string{"exp"}, sha: "9cd7df991a3719234213e1bbcee0ad59"},
 }
 
 // guardCut: a function of which only the guards (if .. { return nil, error })
@@ -66,7 +70,7 @@ func (t *tr) loopStmt(s ast.Stmt) bool {
 		return false
 	}
 	if fp := fingerprint(fs); fp != lm.sha {
-		t.fail("the loop changed (fingerprint %s, recorded %s): its model %q in Proofs/BigIntEqHash.v "+
+		t.fail("the loop changed (fingerprint %s, recorded %s): its model %q in Proofs/BigIntEq{Hash,Recv}.v "+
 			"must be re-validated against the new code and the fingerprint in tools/bigintgen/loops.go updated", fp, lm.sha, lm.fn)
 	}
 	e := lm.fn
@@ -79,10 +83,19 @@ func (t *tr) loopStmt(s ast.Stmt) bool {
 	}
 	t.secUsed[lm.fn] = true
 	old := t.lookup(lm.assign)
-	if old == nil || old.t.k != kZ {
-		t.fail("loop model result %s is not a *big.Int variable", lm.assign)
+	switch {
+	case old != nil && old.t.k == kZ:
+		t.storeVar(lm.assign, &val{t: tZ, c: t.newCell(e, "", oLocal)}, false)
+	case old != nil && old.t.k == kStruct && old.t.ptr && !old.isNil:
+		t.writeObj(old.o, e, false) // the loop writes the struct in place
+	default:
+		t.fail("loop model result %s is not a *big.Int or struct pointer variable", lm.assign)
 	}
-	t.storeVar(lm.assign, &val{t: tZ, c: t.newCell(e, "", oLocal)}, false)
+	for _, cn := range lm.clobber {
+		if v := t.lookup(cn); v != nil {
+			t.setVar(cn, &val{t: tErr, isNil: true, poison: true}, false)
+		}
+	}
 	return true
 }
 
